@@ -1220,6 +1220,476 @@ class WidthKind(Base):
             yield [st('A', s0), st('A', s1), st('B', s0), st('A', s0)][:2 + k % 3]
 
 
+# ------------------------------------------------------------------------------------------------ count / size boundaries
+SIZES = [255, 256, 257, 1023, 1024, 1025, 2048, 4097]
+
+
+def _fkey(v):
+    return 'nan' if v != v else float(v).hex()
+
+
+def _rle(vals, key=lambda v: v):
+    out = []
+    for v in vals:
+        if out and key(out[-1][0]) == key(v):
+            out[-1][1] += 1
+        else:
+            out.append([v, 1])
+    return out
+
+
+def _coq_rle(pairs, f):
+    return C.coq_list(pairs, lambda p: '(%s, %d%%N)' % (f(p[0]), p[1]))
+
+
+def _coq_ns(l):
+    return C.coq_list(l, lambda v: '%d%%N' % v)
+
+
+def _expand(runs):
+    return [v for v, c in runs for _ in range(c)]
+
+
+def _split(rng, n, pool, k):
+    """n samples as at most k runs of values of the pool (adjacent runs differ)."""
+    k = max(1, min(k, n))
+    cuts = sorted(rng.sample(range(1, n), k - 1)) if n > 1 and k > 1 else []
+    runs, prev = [], None
+    for a, b in zip([0] + cuts, cuts + [n]):
+        v = rng.choice([x for x in pool if x != prev] or pool)
+        runs.append([v, b - a])
+        prev = v
+    return runs
+
+
+def _progressions(l):
+    """Ascending integers as (first, step, count) triples."""
+    out, i = [], 0
+    while i < len(l):
+        if i + 1 == len(l):
+            out.append((l[i], 0, 1))
+            break
+        st = l[i + 1] - l[i]
+        j = i + 1
+        while j + 1 < len(l) and l[j + 1] - l[j] == st:
+            j += 1
+        out.append((l[i], st, j - i + 1))
+        i = j + 1
+    return out
+
+
+class MovingLarge(Base):
+    name = 'moving_large'
+    header = HDR_S
+    case_type = 'mv_large'
+    check_fn = 'mv_large_check'
+    explain_fn = None
+    shard = 4
+    rule = ('the six moving operators at count / size boundaries: lane lengths 255, 256, 257, 1023, 1024, 1025, 2048, 4097 with windows '
+            '1, 2, 3, and windows 255 .. 4097 on lanes 0..5 samples longer (1-D and 2-D, both axes); data = a few long runs of a few '
+            'values, given and observed run-length encoded, expanded inside Coq; non-trivial = at least two runs')
+
+    def gen(self, rng, tier):
+        reps = 1 if tier == 'quick' else 4
+        for _ in range(reps):
+            for k, n in enumerate(SIZES):
+                dtype = ['float64', 'int16', 'uint8', 'float32'][k % 4]
+                den = 4 if dtype.startswith('float') else 1
+                pool = [0, 4, 8, 12, 20] if dtype == 'uint8' else [-12, -4, 0, 4, 8, 20]
+                # long lane, small window
+                yield {'shape': [n], 'axis': 0, 'w': rng.choice([1, 2, 3]), 'den': den, 'dtype': dtype, 'runs': _split(rng, n, pool, rng.randint(2, 5))}
+                # window at the boundary, lane a little longer
+                r = rng.randint(0, 5)
+                yield {'shape': [n + r], 'axis': 0, 'w': n, 'den': den, 'dtype': dtype, 'runs': _split(rng, n + r, pool, rng.randint(2, 6))}
+                if n <= 1025:
+                    if k % 2:
+                        yield {'shape': [2, n + 1], 'axis': 1, 'w': n, 'den': den, 'dtype': dtype, 'runs': _split(rng, 2 * (n + 1), pool, 6)}
+                    else:
+                        yield {'shape': [n + 1, 2], 'axis': 0, 'w': n, 'den': den, 'dtype': dtype, 'runs': _split(rng, 2 * (n + 1), pool, 6)}
+
+    def build(self, case):
+        return [_logical(_expand(case['runs']), case['den'], case['dtype'], case['shape'])]
+
+    def invoke(self, arrs, case, keep=None):
+        from scared import signal_processing as sp
+        out = []
+        for op in MV_OPS:
+            r = getattr(sp, op)(arrs[0], case['w'], case['axis'])
+            out.append({'op': op, 'shape': list(r.shape), 'rle': _rle(_flat(r), _fkey)})
+        return {'ops': out}
+
+    def coq(self, case, obs):
+        inp = _rle([float(v) for v in _flatten(self.build(case)[0].tolist())], _fkey)
+        ob = C.coq_list(obs.get('ops', []), lambda o: '(%s, (%s, %s))' % (MV_COQ[o['op']], _coq_ns(o['shape']), _coq_rle(o['rle'], F)))
+        return '{| ml_shape := %s; ml_axis := %s; ml_w := %d%%N; ml_in := %s; ml_obs := %s |}' % (
+            _coq_ns(case['shape']), C.coq_nat(case['axis']), case['w'], _coq_rle(inp, F), ob)
+
+    def nontrivial(self, case, obs):
+        return len(case['runs']) >= 2
+
+    def features(self, case, obs):
+        return {'n': case['shape'][case['axis']], 'w': case['w'] if case['w'] <= 3 else 'n-%d' % (case['shape'][case['axis']] - case['w'])}
+
+    def tags(self, case, obs):
+        return ['moving_large']
+
+    def sample(self, case, obs):
+        return {'case': case, 'observed': [{'op': o['op'], 'shape': o['shape'], 'rle': o['rle'][:4]} for o in obs.get('ops', [])]}
+
+
+class PatternLarge(Base):
+    name = 'pattern_large'
+    header = HDR_S
+    case_type = 'pd_large'
+    check_fn = 'pd_large_check'
+    explain_fn = None
+    shard = 3
+    rule = ('correlation / distance / bcdc at count / size boundaries: traces of 255 .. 4097 samples with patterns of 1..3 samples, and '
+            'patterns of 255 .. 2048 samples on traces 1..5 samples longer; runs of a few values, run-length encoded; non-trivial = '
+            'non-constant trace and pattern')
+
+    def gen(self, rng, tier):
+        reps = 1 if tier == 'quick' else 4
+        for _ in range(reps):
+            for k, n in enumerate(SIZES):
+                dtype = ['float64', 'int16', 'float32'][k % 3]
+                den = 2 if dtype.startswith('float') else 1
+                pool = [-6, -2, 0, 2, 4, 10]
+                yield {'den': den, 'dtype': dtype, 'x': _split(rng, n, pool, rng.randint(3, 6)),
+                       'y': [[rng.choice(pool), 1] for _ in range(rng.randint(1, 3))]}
+                if n <= 2048:
+                    yield {'den': den, 'dtype': dtype, 'x': _split(rng, n + rng.randint(1, 5), pool, rng.randint(3, 7)),
+                           'y': _split(rng, n, pool, rng.randint(2, 5))}
+
+    def build(self, case):
+        x, y = _expand(case['x']), _expand(case['y'])
+        return [_logical(x, case['den'], case['dtype'], [len(x)]), _logical(y, case['den'], case['dtype'], [len(y)])]
+
+    def invoke(self, arrs, case, keep=None):
+        from scared import signal_processing as sp
+        return {fn: _rle(_flat(getattr(sp, fn)(arrs[0], arrs[1])), _fkey) for fn in PD_FNS}
+
+    def coq(self, case, obs):
+        def fr(runs):
+            return _coq_rle([[v / case['den'], c] for v, c in runs], F)
+
+        def opt(k):
+            return '(Some %s)' % _coq_rle(obs[k], F) if k in obs else 'None'
+        return '{| pl_x := %s; pl_y := %s; pl_corr := %s; pl_dist := %s; pl_bcdc := %s |}' % (
+            fr(case['x']), fr(case['y']), opt('correlation'), opt('distance'), opt('bcdc'))
+
+    def nontrivial(self, case, obs):
+        return len(case['x']) >= 2 and len({v for v, _ in case['y']}) >= 2
+
+    def features(self, case, obs):
+        return {'trace': sum(c for _, c in case['x']), 'pattern': sum(c for _, c in case['y'])}
+
+    def tags(self, case, obs):
+        return ['pattern_large']
+
+    def sample(self, case, obs):
+        return {'case': case, 'observed': {k: v[:4] for k, v in obs.items() if isinstance(v, list)}}
+
+
+class PadLarge(Base):
+    name = 'pad_large'
+    header = HDR_S
+    case_type = 'pad_large'
+    check_fn = 'pad_large_check'
+    explain_fn = None
+    shard = 4
+    rule = ('pad at count / size boundaries: arrays of 255 .. 4097 samples (1-D, and 2 x n / n x 2) placed in targets 0..3 larger at offsets '
+            '0..3; run-length encoded; non-trivial = target larger than the array')
+
+    def gen(self, rng, tier):
+        reps = 1 if tier == 'quick' else 4
+        for _ in range(reps):
+            for k, n in enumerate(SIZES):
+                dtype = ALL_DTYPES[k % len(ALL_DTYPES)]
+                pool = [1, 2, 9, 40]
+                off = rng.randint(0, 3)
+                yield {'shape': [n], 'target': [n + off + rng.randint(0, 3)], 'offsets': [off], 'dtype': dtype, 'pad_with': rng.choice([0, 7]),
+                       'runs': _split(rng, n, pool, 4)}
+                if n <= 1025:
+                    shape = [2, n] if k % 2 else [n, 2]
+                    offs = [rng.randint(0, 1), rng.randint(0, 2)]
+                    yield {'shape': shape, 'target': [s + o + rng.randint(0, 1) for s, o in zip(shape, offs)], 'offsets': offs, 'dtype': dtype,
+                           'pad_with': rng.choice([0, 7]), 'runs': _split(rng, 2 * n, pool, 5)}
+
+    def build(self, case):
+        return [_logical(_expand(case['runs']), 1, case['dtype'], case['shape'])]
+
+    def invoke(self, arrs, case, keep=None):
+        from scared import signal_processing as sp
+        kw = {'pad_with': case['pad_with']} if case['pad_with'] else {}
+        r = sp.pad(arrs[0], case['target'], case['offsets'], **kw)
+        return {'shape': list(r.shape), 'rle': _rle(_flat_int(r))}
+
+    def coq(self, case, obs):
+        ob = '(Some %s)' % _coq_rle(obs['rle'], C.coq_z) if 'rle' in obs else 'None'
+        return '{| pal_shape := %s; pal_in := %s; pal_target := %s; pal_offs := %s; pal_with := %s; pal_obs := %s |}' % (
+            _coq_ns(case['shape']), _coq_rle(case['runs'], C.coq_z), _coq_ns(case['target']), _coq_ns(case['offsets']),
+            C.coq_z(case['pad_with']), ob)
+
+    def extra_oracle(self, case, obs):
+        return None if obs['shape'] == case['target'] else f'pad returned shape {obs["shape"]}'
+
+    def nontrivial(self, case, obs):
+        return int(np.prod(case['target'])) > int(np.prod(case['shape']))
+
+    def features(self, case, obs):
+        return {'n': max(case['shape']), 'ndim': len(case['shape'])}
+
+    def tags(self, case, obs):
+        return ['pad_large']
+
+    def sample(self, case, obs):
+        return {'case': case, 'observed': {'shape': obs.get('shape'), 'rle': obs.get('rle', [])[:6]}}
+
+
+class ExtractLarge(Base):
+    name = 'extract_large'
+    header = HDR_S
+    case_type = 'ex_large'
+    check_fn = 'ex_large_check'
+    explain_fn = None
+    shard = 4
+    rule = ('extract_around_indexes at count / size boundaries: 255 .. 4097 and 65536 indexes (runs of a few admissible positions, e.g. '
+            '1024 x a then 1 x b) in the three modes on a short piecewise-constant signal, and signals of 255 .. 4097 samples with a few '
+            'indexes; run-length encoded; non-trivial = at least two distinct indexes')
+
+    def gen(self, rng, tier):
+        reps = 1 if tier == 'quick' else 4
+        for _ in range(reps):
+            for k, K in enumerate(SIZES + [65536]):
+                for mode in (['average', 'average', 'stack', 'concatenate'] if K <= 4097 else ['average']):
+                    dtype = ['float64', 'int16', 'uint8', 'int32'][k % 4]
+                    data = [[rng.choice([0, 3, 8, 15, 40]), 6] for _ in range(rng.randint(3, 6))]      # runs of 6 equal samples
+                    L = 6 * len(data)
+                    before, after = rng.randint(0, 2), rng.randint(0, 2)
+                    pos = [rng.randint(before, L - 1 - after) for _ in range(4)]
+                    # unbalanced runs: one full block of 2^m indexes then a short tail, or a few random runs
+                    if rng.random() < 0.5 and K > 256:
+                        big = 1 << (K.bit_length() - 1)
+                        big = big if big < K else big // 2
+                        idx = [[pos[0], big]] + _split(rng, K - big, pos[1:], 2)
+                    else:
+                        idx = _split(rng, K, pos, rng.randint(2, 4))
+                    yield {'data': data, 'dtype': dtype, 'idx': idx, 'before': before, 'after': after, 'mode': mode}
+            for k, n in enumerate(SIZES):
+                dtype = ['float64', 'int16'][k % 2]
+                before, after = rng.randint(0, 3), rng.randint(0, 3)
+                yield {'data': _split(rng, n, [0, 3, 8, 15], 5), 'dtype': dtype, 'before': before, 'after': after, 'mode': ['stack', 'average', 'concatenate'][k % 3],
+                       'idx': [[p, 1] for p in [before, n - 1 - after, rng.randint(before, n - 1 - after)]]}
+
+    def build(self, case):
+        d = _expand(case['data'])
+        return [_logical(d, 1, case['dtype'], [len(d)]), np.array(_expand(case['idx']), dtype='int64')]
+
+    def invoke(self, arrs, case, keep=None):
+        from scared import signal_processing as sp
+        r = sp.extract_around_indexes(arrs[0], arrs[1], case['before'], case['after'], sp.ExtractMode(case['mode']))
+        return {'shape': list(r.shape), 'rle': _rle(_flat(r), _fkey)}
+
+    def coq(self, case, obs):
+        ob = '(Some (%s, %s))' % (_coq_ns(obs['shape']), _coq_rle(obs['rle'], F)) if 'rle' in obs else 'None'
+        return '{| exl_data := %s; exl_prec := F64; exl_idx := %s; exl_before := %s; exl_after := %s; exl_mode := %s; exl_obs := %s |}' % (
+            _coq_rle([[float(v), c] for v, c in case['data']], F), _coq_rle(case['idx'], C.coq_z), C.coq_nat(case['before']),
+            C.coq_nat(case['after']), EX_MODES[case['mode']], ob)
+
+    def nontrivial(self, case, obs):
+        return len({v for v, _ in case['idx']}) >= 2
+
+    def features(self, case, obs):
+        return {'indexes': sum(c for _, c in case['idx']), 'mode': case['mode'], 'len': sum(c for _, c in case['data'])}
+
+    def tags(self, case, obs):
+        return ['extract_large', 'extract_large_' + case['mode']]
+
+    def sample(self, case, obs):
+        return {'case': case, 'observed': {'shape': obs.get('shape'), 'rle': obs.get('rle', [])[:6]}}
+
+    def shrink(self, case):
+        idx = case['idx']
+        for i in range(len(idx)):
+            if idx[i][1] > 1:
+                for c in (idx[i][1] // 2, idx[i][1] - 1):
+                    yield dict(case, idx=idx[:i] + [[idx[i][0], c]] + idx[i + 1:])
+            elif len(idx) > 1:
+                yield dict(case, idx=idx[:i] + idx[i + 1:])
+
+
+def _blocks(rng, n, style):
+    """A signal of n samples as (pattern, repetitions) blocks over the values 0, 2, 4 (numerators over 2)."""
+    if style == 'constant':
+        return [[[rng.choice([0, 2, 4])], n]]
+    if style == 'periodic':
+        pat = rng.choice([[0, 2], [2, 0], [0, 0, 4], [0, 2, 2, 0], [4, 0, 2]])
+        q, r = divmod(n, len(pat))
+        return [[pat, q]] + ([[pat[:r], 1]] if r else [])
+    runs = _split(rng, n, [0, 2, 4], rng.randint(2, 6))       # a few long runs
+    return [[[v], c] for v, c in runs]
+
+
+def _expandb(blocks):
+    return [v for pat, c in blocks for _ in range(c) for v in pat]
+
+
+def _coq_blocks(blocks):
+    return C.coq_list(blocks, lambda b: '(%s, %d%%N)' % (C.coq_list(b[0], C.coq_z), b[1]))
+
+
+class PeaksLarge(Base):
+    name = 'find_peaks_large'
+    header = HDR_P
+    case_type = 'pk_large'
+    check_fn = 'pk_large_check'
+    corr_fn = 'pk_large_corr'
+    explain_fn = None
+    shard = 2
+    rule = ('find_peaks at count / size boundaries: signals of 255 .. 4097 samples (constant: every sample a candidate; periodic: len/2 '
+            'or len/3 candidates; a few long plateaus) with distances 0, 1, 2, 3 and 255, 256, 257, 1023, 1024, 1025, len, len+1; signals as '
+            '(pattern, repetitions) blocks, results as arithmetic progressions, expanded inside Coq; property clauses (check_fn) and '
+            'model scan (corr_fn); non-trivial = distance >= 2')
+
+    def gen(self, rng, tier):
+        reps = 1 if tier == 'quick' else 3
+        for _ in range(reps):
+            for k, n in enumerate(SIZES):
+                for style in ('constant', 'periodic', 'runs'):
+                    ds = [rng.choice([0, 1]), rng.choice([2, 3]), rng.choice([d for d in [255, 256, 257, 1023, 1024, 1025] if d <= n + 1]), rng.choice([n, n + 1])]
+                    yield {'blocks': _blocks(rng, n, style), 'den': 2, 'dtype': ['float64', 'int16', 'uint8', 'int64'][k % 4], 'style': style,
+                           'queries': [[d, rng.choice(['-inf', 1, 2, 3])] for d in ds]}
+
+    def build(self, case):
+        d = _expandb(case['blocks'])
+        return [_logical(d, case['den'], case['dtype'], [len(d)])]
+
+    def invoke(self, arrs, case, keep=None):
+        from scared import signal_processing as sp
+        out = []
+        for d, h in case['queries']:
+            hv = -np.inf if h == '-inf' else h / case['den']
+            out.append(_flat_int(sp.find_peaks(arrs[0], d, hv)))
+        return {'peaks': out}
+
+    def coq(self, case, obs):
+        peaks = obs.get('peaks', [[] for _ in case['queries']])
+        qs = []
+        for (d, h), pk in zip(case['queries'], peaks):
+            if not (all(p >= 0 for p in pk) and all(a < b for a, b in zip(pk, pk[1:]))):
+                pk = [10 ** 6]          # not ascending / negative: an index that is no candidate
+            qs.append('pklq %d %s %s%%N' % (d, _zheight(h), C.coq_list(_progressions(pk), lambda t: '(%d, %d, %d)' % t)))
+        return '{| pkl_data := %s; pkl_queries := %s |}' % (_coq_blocks(case['blocks']), C.coq_list(qs))
+
+    def nontrivial(self, case, obs):
+        return any(d >= 2 for d, _ in case['queries'])
+
+    def features(self, case, obs):
+        return {'n': sum(len(p) * c for p, c in case['blocks']), 'style': case['style']}
+
+    def tags(self, case, obs):
+        return ['find_peaks_large']
+
+    def sample(self, case, obs):
+        return {'case': case, 'observed': {'peaks': [p[:6] for p in obs.get('peaks', [])]}}
+
+    def shrink(self, case):
+        if len(case['queries']) > 1:
+            for q in case['queries']:
+                yield dict(case, queries=[q])
+
+
+class WidthLarge(Base):
+    name = 'find_width_large'
+    header = HDR_P
+    case_type = 'fw_large'
+    check_fn = 'fw_large_check'
+    explain_fn = None
+    shard = 2
+    rule = ('find_width at count / size boundaries: signals of 255 .. 4097 samples: periodic (len/2 or len/3 runs), a run of exactly 255 .. 1025 '
+            'samples against min_width / max_width / delta at and around its length, a few long runs; both directions; signals as (pattern, '
+            'repetitions) blocks, rows as arithmetic progressions, expanded inside Coq and compared with the gap construction (equal to the '
+            'set of bracketed maximal runs by the theorem width_is_maximal_runs); non-trivial = at least one row returned')
+
+    def gen(self, rng, tier):
+        reps = 1 if tier == 'quick' else 3
+        for _ in range(reps):
+            for k, n in enumerate(SIZES):
+                dtype = ['float64', 'int16', 'uint8', 'int64', 'float32'][k % 5]
+                yield {'blocks': _blocks(rng, n, 'periodic'), 'den': 2, 'dtype': dtype, 'style': 'periodic',
+                       'queries': [[dr, t, m] for dr in ('positive', 'negative') for t in (1, 2) for m in (['min', 1], ['minmax', 1, 2], ['delta', 2, 1])]}
+                yield {'blocks': _blocks(rng, n, 'runs'), 'den': 2, 'dtype': dtype, 'style': 'runs',
+                       'queries': [[dr, rng.choice([0, 1, 2, 3]), m] for dr in ('positive', 'negative') for m in _modes(rng, n, 2, boundary=1)]}
+                # one bracketed run of exactly L samples, L at a boundary, widths at and around L
+                L = rng.choice([s for s in SIZES if s + 2 <= n] or [n - 2])
+                pre = rng.randint(1, n - L - 1)
+                blocks = [[[0], pre], [[4], L], [[0], n - L - pre]]
+                ms = [['min', L - 1], ['min', L], ['min', L + 1], ['minmax', 1, L - 1], ['minmax', L, L], ['delta', L + 1, 1], ['delta', L - 2, 1],
+                      ['minmaxdelta', L, L + 1, 1]]
+                yield {'blocks': blocks, 'den': 2, 'dtype': dtype, 'style': 'one_run',
+                       'queries': [['positive', 2, m] for m in ms] + [['negative', 2, m] for m in ms[:3]]}
+
+    def build(self, case):
+        d = _expandb(case['blocks'])
+        return [_logical(d, case['den'], case['dtype'], [len(d)])]
+
+    def invoke(self, arrs, case, keep=None):
+        from scared import signal_processing as sp
+        out = []
+        for dr, t, m in case['queries']:
+            direction = sp.Direction.POSITIVE if dr == 'positive' else sp.Direction.NEGATIVE
+            kw = {}
+            if m[0] in ('minmax', 'minmaxdelta'):
+                kw['max_width'] = m[2]
+            if m[0] == 'delta':
+                kw['delta'] = m[2]
+            if m[0] == 'minmaxdelta':
+                kw['delta'] = m[3]
+            r = np.asarray(sp.find_width(arrs[0], direction, t / case['den'], m[1], **kw))
+            if r.ndim != 2 or r.shape[1] != 2:
+                return {'raised': 'BadShape', 'msg': str(r.shape)}
+            out.append([[int(v[0]), int(v[1])] for v in r.tolist()])
+        return {'rows': out}
+
+    def coq(self, case, obs):
+        rows = obs.get('rows', [[] for _ in case['queries']])
+        qs = []
+        for (dr, t, m), rw in zip(case['queries'], rows):
+            if any(a < 0 or b < 0 for a, b in rw):
+                rw = [[10 ** 6, 10 ** 6]]
+            # rows (s, e) with the same step in both coordinates
+            prog, i = [], 0
+            while i < len(rw):
+                j = i
+                if i + 1 < len(rw):
+                    st = rw[i + 1][0] - rw[i][0]
+                    while j + 1 < len(rw) and st >= 0 and rw[j + 1][0] - rw[j][0] == st and rw[j + 1][1] - rw[j][1] == st:
+                        j += 1
+                prog.append((rw[i][0], rw[i][1], (rw[i + 1][0] - rw[i][0]) if j > i else 0, j - i + 1))
+                i = j + 1
+            qs.append('fwlq %s %s (%s) %s%%N' % ('Positive' if dr == 'positive' else 'Negative', C.coq_z(t), _zwmode(m),
+                                                  C.coq_list(prog, lambda q: '(%d, %d, %d, %d)' % q)))
+        return '{| fwl_data := %s; fwl_queries := %s |}' % (_coq_blocks(case['blocks']), C.coq_list(qs))
+
+    def nontrivial(self, case, obs):
+        return any(len(r) > 0 for r in obs.get('rows', []))
+
+    def features(self, case, obs):
+        return {'n': sum(len(p) * c for p, c in case['blocks']), 'style': case['style'], 'rows': min(max([len(r) for r in obs.get('rows', [])] or [0]), 1025)}
+
+    def tags(self, case, obs):
+        return ['find_width_large']
+
+    def sample(self, case, obs):
+        return {'case': case, 'observed': {'rows': [r[:4] for r in obs.get('rows', [])]}}
+
+    def shrink(self, case):
+        if len(case['queries']) > 1:
+            for q in case['queries']:
+                yield dict(case, queries=[q])
+
+
 def _spread(gen):
     """Interleave the (costly) long random signals with the short exhaustive ones so that the Coq shards are balanced."""
     def wrapped(self, rng, tier):
@@ -1252,4 +1722,5 @@ KINDS = [_MV, _PD, _PA, _EX, _PK, _FW,
          History(_PA, _PA.histories, _HIST_RULE % 'pad'),
          History(_EX, _EX.histories, _HIST_RULE % 'extract_around_indexes'),
          History(_PK, _PK.histories, _HIST_RULE % 'find_peaks'),
-         History(_FW, _FW.histories, _HIST_RULE % 'find_width')]
+         History(_FW, _FW.histories, _HIST_RULE % 'find_width'),
+         MovingLarge(), PatternLarge(), PadLarge(), ExtractLarge(), PeaksLarge(), WidthLarge()]
